@@ -1,6 +1,7 @@
 package rules
 
 import (
+	"go/token"
 	"go/types"
 	"sort"
 	"strings"
@@ -64,6 +65,7 @@ func runC15(c *Ctx) {
 	r.Rule("leaf-case", "a collector that records a field of node type T (map key derived from T.<field>) has a `case *ast.T` in its node-level function collectFromNode")
 	r.Rule("table-field", "every field of type TableReference / []TableReference / *TableReference and every TableName string of a node type, when populated by the parser, is read by each table collector")
 	r.Rule("dedup", "toSlice returns only what it obtains by ranging over the collector's map")
+	r.Rule("generic-walk", "in each collectFromNode every path from the entry to a return passes the generic Children() loop, except the `node == nil` exit: a type-switch case that returns early cuts off every child position its explicit code does not list (OVER / WITHIN GROUP / ORDER BY inside a call, sub-queries in arguments)")
 	r.Rule("single-visit", "collectFromNode does not recurse into a child explicitly and then again through the generic Children() loop")
 	astPk, gx := p.Pkg("pkg/sql/ast"), p.Pkg("pkg/gosqlx")
 	if astPk == nil || gx == nil {
@@ -103,6 +105,7 @@ func runC15(c *Ctx) {
 			}
 		}
 		node := p.Method("pkg/gosqlx", kn, "collectFromNode")
+		c15GenericWalk(c, p, kn, node)
 		// recorded types
 		recorded := map[*types.Named]string{}
 		for _, fn := range methods {
@@ -295,4 +298,65 @@ func setOf(fns []*ssa.Function) map[*ssa.Function]bool {
 		s[f] = true
 	}
 	return s
+}
+
+
+// c15GenericWalk: no return of collectFromNode is reachable from the entry without passing the Children() call,
+// other than through the node == nil test.
+func c15GenericWalk(c *Ctx, p *core.Prog, kn string, fn *ssa.Function) {
+	r := c.R
+	if fn == nil || len(fn.Params) < 2 {
+		return
+	}
+	nodePar := fn.Params[1]
+	var ch ssa.Instruction
+	for _, b := range fn.Blocks {
+		for _, in := range b.Instrs {
+			if call, ok := in.(*ssa.Call); ok && call.Call.IsInvoke() && call.Call.Method.Name() == "Children" && call.Call.Value == ssa.Value(nodePar) {
+				ch = call
+			}
+		}
+	}
+	key := kn + ".collectFromNode"
+	if ch == nil {
+		r.Violate("generic-walk", key, p.FnPos(fn), "the collector never walks node.Children(): positions it does not list explicitly are not visited")
+		return
+	}
+	seen := map[*ssa.BasicBlock]bool{fn.Blocks[0]: true}
+	var bad *ssa.Return
+	var scan func(b *ssa.BasicBlock)
+	scan = func(b *ssa.BasicBlock) {
+		for _, in := range b.Instrs {
+			if in == ch {
+				return
+			}
+			if ret, ok := in.(*ssa.Return); ok {
+				bad = ret
+				return
+			}
+		}
+		skip := -1
+		if iff, ok := b.Instrs[len(b.Instrs)-1].(*ssa.If); ok {
+			if bo, ok := iff.Cond.(*ssa.BinOp); ok && (bo.X == ssa.Value(nodePar) || bo.Y == ssa.Value(nodePar)) && (core.IsNilConst(bo.X) || core.IsNilConst(bo.Y)) {
+				if bo.Op == token.EQL {
+					skip = 0
+				} else if bo.Op == token.NEQ {
+					skip = 1
+				}
+			}
+		}
+		for i, s := range b.Succs {
+			if i == skip || seen[s] || bad != nil {
+				continue
+			}
+			seen[s] = true
+			scan(s)
+		}
+	}
+	scan(fn.Blocks[0])
+	if bad != nil {
+		r.Violate("generic-walk", key, p.Pos(bad.Pos()), "this return is reached without walking node.Children(): for the node type handled on that path, every child position the explicit code does not visit is skipped (names in it are missing from the result)")
+	} else {
+		r.OK("generic-walk", key, p.Pos(ch.Pos()), "every non-nil path reaches the Children() loop")
+	}
 }
